@@ -130,7 +130,10 @@ def render(EX, PT, e, ind=0, top=False):
     if n == 'EPath': return ms.pystr(f['path'].fields[0].items[0].fields[0].fields[0])
     if n == 'EInt': return '1'
     if n == 'EBool': return 'true'
-    if n == 'ELet': return 'let %s = %s' % (pat(f['pat']), R(f['value']))
+    if n == 'ELet':
+        # a tuple pattern needs a tuple value for the replay program to type-check: the value is written once per component
+        np_ = len(dict(zip([x[0] for x in PT.variants[f['pat'].idx].fields], f['pat'].fields))['pats'].items) if PT.variants[f['pat'].idx].name == 'PTuple' else 0
+        return 'let %s = %s' % (pat(f['pat']), R(f['value']) if np_ == 0 else '(' + ', '.join(R(f['value']) for _ in range(np_)) + ')')
     if n == 'EBlock':
         xs = f['exprs'].items; parts = []
         for i, x in enumerate(xs):
@@ -268,8 +271,8 @@ def obligations():
            dict(depth=1, names=('x', 'y'), exprs=['EPath', 'EMatch', 'ELet'], leaves=['EPath', 'EInt'], pats=['PVar', 'PWild'], top='{ E; use }', second_depth=-1, arms=2, plain_bodies=True)),
         Ob('O5.1-globals', 'resolver: a local binder wins over a top-level definition / builtin of the same name', ob_resolve, ('quick', 'thorough'), 5,
            dict(depth=1, names=('x', 'y'), exprs=['EPath', 'ELet', 'EMatch', 'EClosure', 'ECall'], leaves=['EPath', 'EInt'], pats=['PVar', 'PWild'], top='{ E; use }', second_depth=-1, globals_=True, plain_bodies=True)),
-        Ob('O5.1-d1-while-tuplepat', 'resolver vs lexical scoping rule: while bodies, nested blocks and tuple patterns in let / match', ob_resolve, ('quick', 'thorough'), 5,
-           dict(depth=1, names=('x', 'y'), exprs=['EPath', 'ELet', 'EWhile', 'EBlock'], leaves=['EPath', 'EInt'], pats=['PVar', 'PWild', 'PTuple'], top='{ E; use }', second_depth=-1)),
+        Ob('O5.1-d1-while-tuplepat', 'resolver vs lexical scoping rule: while bodies, if branches and tuple patterns in let', ob_resolve, ('quick', 'thorough'), 5,
+           dict(depth=1, names=('x', 'y'), exprs=['EPath', 'ELet', 'EWhile', 'EIf'], leaves=['EPath', 'EInt'], pats=['PVar', 'PWild', 'PTuple'], top='{ E; use }', second_depth=-1)),
         Ob('O5.1-d1-d0', 'resolver vs lexical scoping rule: { E; E0 } with E of depth 1 and E0 a leaf or let', ob_resolve, ('thorough',), 20,
            dict(depth=1, names=('x', 'y'), exprs=E1, leaves=['EPath', 'EInt'], pats=['PVar', 'PWild'], top='{ E; E0 }', second_depth=0)),
         Ob('O5.1-d2-use', 'resolver vs lexical scoping rule: { E; use } with E of depth 2 over scope-forming constructors', ob_resolve, ('thorough',), 100,
